@@ -48,6 +48,9 @@ struct PktRec
 	bool has_channel = false;
 	int hops_left = 0;
 	uint64_t channel_id = 0; // small stable id per channel object, 0 = none
+	int64_t dst_addr = 0;    // for packets that carry the channel (SYN, SYN-ACK): the acceptor's endpoint
+	int dst_port = 0;
+	int src_port = 0;        // ... and the connector's real port
 	bool droppable() const { return type != 2 && type != 3 && type != 4; } // not syn_ack/ack/error
 	int size() const { return payload + overhead; }
 	bool same_packet(PktRec const& o) const
@@ -95,7 +98,7 @@ struct FaultSink : sim::sink
 
 struct HopSpec
 {
-	enum Kind { Queue = 0, Nat = 1, Fault = 2 } kind = Queue;
+	enum Kind { Queue = 0, Nat = 1, Fault = 2, Pass = 3 } kind = Queue; // Pass: nothing (synchronous pass-through)
 	int64_t bw = 0;      // bytes/s, 0 = infinite
 	int64_t lat_ns = 0;
 	int64_t cap = 0;     // bytes, 0 = unlimited
@@ -186,6 +189,12 @@ struct Net : sim::configuration
 		r.has_drop_fun = bool(p.drop_fun);
 		r.has_channel = bool(p.channel);
 		r.channel_id = channel_id(p.channel);
+		if (p.channel)
+		{
+			r.dst_addr = addr_key(p.channel->ep[1].address());
+			r.dst_port = p.channel->ep[1].port();
+			r.src_port = p.channel->ep[0].port();
+		}
 		return r;
 	}
 
@@ -212,6 +221,8 @@ struct Net : sim::configuration
 					break;
 				case HopSpec::Nat:
 					c.sinks.push_back(std::make_shared<sim::nat>(ip::make_address(h.nat_ip)));
+					break;
+				case HopSpec::Pass:
 					break;
 				case HopSpec::Fault:
 				{
